@@ -9,6 +9,7 @@
   range), every amplitude array, both modes, every size.
 -/
 import Proofs.Lemmas.Spectra
+import Proofs.Lemmas.ComposeStats
 
 namespace C10
 open Spectra
@@ -206,5 +207,11 @@ example : hht1d [1, 2, 4] true 2
       [[1, 2], [3, 4], [5, 6], [7, 8]] = [[0, 68], [58, 0]] := by decide +kernel
 example : inRange [1, 2, 4] (some 1) = true ∧ inRange [1, 2, 4] (some 4) = false ∧
     inRange [1, 2, 4] (some (1/2)) = false ∧ inRange [1, 2, 4] none = false := by decide +kernel
+
+
+/-- The histogram model and the phase-binning model (C14, `bin_by_phase`) use one and the same model of
+    `np.digitize` (increasing bins, right=False), so `digitize_spec` above also characterises phase bins. -/
+theorem digitize_shared_with_phase_binning (e : List Rat) (v : Rat) :
+    Spectra.digitize e v = CycleStats.digitize e v := ComposeStats.digitize_agree e v
 
 end C10
